@@ -114,6 +114,9 @@ def projects(draw, max_steps=9, allow_always=True, allow_clash=False):
                     unique=True)))
             if draw(st.integers(0, 3)) == 0:
                 step['name'] = 'bin/' + step['name']
+            if kind == 'shlib' and draw(st.integers(0, 2)) == 0:
+                # real file + soname link + link-time name
+                step['versioned'] = True
             # explicitly passed (generated) headers: includes=[...]
             if draw(st.integers(0, 2)) > 0:
                 step['hdrs'] = pick(file_refs('H'), 1, 2)
@@ -135,7 +138,9 @@ def projects(draw, max_steps=9, allow_always=True, allow_clash=False):
                 step['outs'] = ['gen/' + o for o in step['outs']]
             step['files'] = pick(file_refs('cdhb'), 0, 3)
             step['two_lines'] = draw(st.integers(0, 2)) == 0
-            step['cmd_refs'] = draw(st.integers(0, 2)) == 0
+            step['cmd_refs'] = draw(st.booleans())
+            if step['cmd_refs'] and not step['files']:
+                step['files'] = pick(file_refs('cdhb'), 1, 2)
             step['always'] = allow_always and draw(st.integers(
                 0, 7 if nout == 1 else 3)) == 0
         elif kind == 'copy':
@@ -299,6 +304,18 @@ def reference_graph(model):
             else:
                 add_libs(st_['libs'], False)
             o = out_name(model, st_)
+            if st_.get('versioned'):
+                # lib.so.1.2.3 is linked; lib.so.1 -> it; lib.so -> lib.so.1
+                g.append({'key': 'out:' + o + '.1.2.3', 'sid': st_['id'],
+                          'inputs': objs | libs | extra,
+                          'optional': optional, 'outputs': [B + o + '.1.2.3'],
+                          'phony': False, 'always': False, 'runs': True})
+                for name, src_ in ((o + '.1', o + '.1.2.3'), (o, o + '.1')):
+                    g.append({'key': 'out:' + name, 'sid': st_['id'],
+                              'inputs': {B + src_}, 'outputs': [B + name],
+                              'phony': False, 'always': False, 'runs': True,
+                              'transparent': True, 'link': 'symlink'})
+                continue
             g.append({'key': 'out:' + o, 'sid': st_['id'],
                       'inputs': objs | libs | extra, 'optional': optional,
                       'outputs': [B + o],
@@ -470,6 +487,8 @@ def script(model):
             if kind != 'exe' and st_['id'] in decor.get('dual', []):
                 fn = 'library'
             libs = ''
+            if st_.get('versioned') and fn == 'shared_library':
+                extra += ", version='1.2.3', soversion='1'"
             if st_.get('pch'):
                 extra += ', pch=pch_{}'.format(st_['pch'].replace('.', '_'))
             if st_.get('copts'):
@@ -585,7 +604,7 @@ def canonical(model):
         out.append([st_['kind'], len(st_['files']), len(st_['libs']),
                     len(st_['extra']), len(st_['outs']), st_['always'],
                     len(st_.get('hdrs', [])), bool(st_.get('pchname')),
-                    st_.get('mode'),
+                    st_.get('mode'), bool(st_.get('versioned')),
                     sorted(r[0] if r[0] == 'src' else
                            'k' + str(step_by_id(model)[r[1]]['kind'])
                            for r in st_['files'] + st_['extra'])])
